@@ -310,10 +310,13 @@ class Outcome:
         return f'[{g}] {self.kind} {self.value!r}'
 
 
-def mk_ite(test: Term, a: Term, b: Term) -> Term:
-    """a conditional whose branches agree is that value; a conditional between truth constants is a connective"""
+def mk_ite(test: Term, a: Term, b: Term, boolean: bool = False) -> Term:
+    """a conditional whose branches agree is that value; in a truth-value position (boolean=True) a conditional
+    between truth constants is a connective"""
     if a == b:
         return a
+    if not boolean:
+        return Ite(test, a, b)
     ta = a.value if isinstance(a, Const) and isinstance(a.value, bool) else None
     tb = b.value if isinstance(b, Const) and isinstance(b.value, bool) else None
     if ta is True and tb is False:
@@ -686,6 +689,8 @@ class Evaluator:
             fi = self.callee(t.func)
             if fi is not None:
                 return self.ann_class(fi.node.returns, fi.module)
+            if isinstance(t.func, Ext) and t.func.name.split('.')[-1] == 'evolve' and t.args:
+                return self.type_of(t.args[0])   # attrs.evolve(x, ...) is another instance of x's class
             return None
         if isinstance(t, Ite):
             a, b = self.type_of(t.a), self.type_of(t.b)
@@ -1450,7 +1455,7 @@ class Evaluator:
 
     def compare(self, op: str, a: Term, b: Term) -> Term:
         if isinstance(a, Ite) and isinstance(b, (Const, EnumMember)) and op in ('is', 'is not', '==', '!='):
-            return mk_ite(a.test, self.compare(op, a.a, b), self.compare(op, a.b, b))
+            return mk_ite(a.test, self.compare(op, a.a, b), self.compare(op, a.b, b), boolean=True)
 
         def atom(t):
             return isinstance(t, (Const, EnumMember, ClassRef))
@@ -1614,6 +1619,8 @@ class Evaluator:
         return v
 
     def attr(self, base: Term, name: str, st: _State, depth: int, store: bool = False) -> Term:
+        if isinstance(base, Raises):
+            return base   # the exception propagates through the expression
         key = Attr(base, name)
         if key in self.assume and not store:
             return self.assume[key]
@@ -1761,6 +1768,11 @@ class Evaluator:
         return self.apply(func, tuple(args), tuple(kwargs), st, depth, star)
 
     def apply(self, func: Term, args: Tuple[Term, ...], kwargs: Tuple[Tuple[str, Term], ...], st: _State, depth: int, star: bool = False) -> Term:
+        if isinstance(func, Raises):
+            return func
+        for a_ in args:
+            if isinstance(a_, Raises):
+                return a_
         if isinstance(func, Ite):
             return mk_ite(func.test, self.apply(func.a, args, kwargs, st, depth, star), self.apply(func.b, args, kwargs, st, depth, star))
         if isinstance(func, ClassRef):
